@@ -250,6 +250,10 @@ impl<T> Pool<T> {
     /// See [`PoolError`] for details.
     pub async fn timeout_get(&self, timeout: Option<Duration>) -> Result<Object<T>, PoolError> {
         let inner = self.inner.as_ref();
+        // Count this caller as waiting until it either gets an object or
+        // gives up (error, timeout or the future being dropped).
+        let _ = inner.available.fetch_sub(1, Ordering::Relaxed);
+        let waiting_guard = WaitingGuard(&inner.available);
         let permit = match (timeout, inner.config.runtime) {
             (None, _) => inner
                 .semaphore
@@ -289,7 +293,8 @@ impl<T> Pool<T> {
         permit.forget();
         #[cfg(deadpool_verif)]
         verif::point("unmanaged.get.pre_available");
-        let _ = inner.available.fetch_sub(1, Ordering::Relaxed);
+        // The object is no longer available: keep the count decremented.
+        std::mem::forget(waiting_guard);
         #[cfg(deadpool_verif)]
         verif::point("unmanaged.get.post_available");
         Ok(Object {
@@ -473,6 +478,16 @@ pub struct VerifSnapshot {
     pub available: isize,
     /// Length of the queue.
     pub queue: usize,
+}
+
+/// Restores the `available` counter when a caller stops waiting for an
+/// [`Object`] without having received one.
+struct WaitingGuard<'a>(&'a AtomicIsize);
+
+impl Drop for WaitingGuard<'_> {
+    fn drop(&mut self) {
+        let _ = self.0.fetch_add(1, Ordering::Relaxed);
+    }
 }
 
 #[derive(Debug)]
